@@ -147,6 +147,18 @@ turned out to be the check's fault; none is listed as a known finding.
   OnLaunch of the actor.
 * world: a gate first reached during clean-up blocked the bubble for ever
   (gates created during `Close` are created open).
+* C09 "suspended until the decision", third correction (found by the thorough
+  tier after the second): the directive that re-opens a freshly failed actor
+  can also have been decided *before* it failed (a one-for-all Resume about a
+  sibling, still queued). The exemption window now starts at the child's
+  previous consultation, not at its failure.
+* C09 supervision-window unit, first version of the "no dead letter" clause:
+  a restart terminates the children of the restarted actor for good, so mail to
+  them is rightly dead-lettered; only addressees that are alive at the end and
+  none of whose ancestors was restarted or killed are judged.
+* Window points inside a critical section made the bubble hang (a goroutine
+  waiting for a mutex is not durably blocked for `synctest`): the instrumenter
+  places none between Lock and Unlock.
 * C18: the simulation was not a pure function of the case (the library ranges
   over maps, so the creation order of one handler's sends is random): latencies
   and losses became functions of (link, position), simultaneous events are
@@ -218,6 +230,13 @@ its history (checked by replaying both histories with either fix alone).
 | C14-7 | the retry budget of a peer across two outages | second outage after a survived first one (own unit `outages`) |
 | C15-4 | an encode failure before built-in remote operations (pooled writers keep a sticky error) | `badtell` operation: a burst of unencodable messages to the other system, in both runs |
 | C18-5 | a configured gossip rate limit | regime S, one case in five: 1-3 messages per second, burst 1-2, on every node |
+| C06-5 | one-shot jobs that have fired before the kill (stale references in the job table) next to live periodic ones | `jobonce` set-up operation and an optional 1.5 s of virtual time before the kills |
+| C09-7 | restart hooks of actors assembled with `NewComplexCombinationActor` | own unit `combo` (reference model over 1-4 components with succeeding / failing OnPreRestart, OnRestarted, OnPrelaunch) |
+| C09-9 | mail queued behind the *second* of two overlapping sibling failures; "delivered, not dead-lettered" | supervision-window unit: either child fails first, later failures carry queued mail, clause "only immediate decisions and no kill => no dead letter for an undisturbed addressee" (this found KF-C09-7 on the unchanged tree) |
+| C04-9 | a forwarder whose delivery is slow | own real-clock unit `slowfwd`: pending future piped to a forwarder on a system that refuses connections |
+| C04-10 | an asker that dies and is spawned again under its name while replies to the old incarnation are due | `Respawn` of ask-only actors in the virtual unit |
+| C07-7 | a send that is inside the reconnect back-off at the moment of Stop | three fixed shapes in front of the generated cases of the remoting unit, `unreachable` drawn more often |
+| C05-7 | a restart directive that also reaches the descendant whose failure was escalated | caught by C08 (`targets|incarnations`, `seeded/CROSS.tsv`); C05's per-actor lifecycle stays legal under this change |
 
 ### 9.5 Known findings (genuine, not repaired) and why they are not small
 
